@@ -93,6 +93,7 @@ type Rec struct {
 	start    time.Time
 	maxSamp  int
 	caseNT   int64              // non-trivial cases seen through Case (sampling schedule)
+	caseN    int64              // cases seen through Case (denominator of the starvation rule; Bulk does not count)
 	required map[string]float64 // class -> minimal fraction of evaluations
 }
 
@@ -138,6 +139,7 @@ func (r *Rec) Case(key any, nontrivial bool, sample any, classes ...string) {
 	r.mu.Lock()
 	defer r.mu.Unlock()
 	r.p.Evaluations++
+	r.caseN++
 	for _, c := range classes {
 		r.p.Classes[c]++
 	}
@@ -247,8 +249,8 @@ func (r *Rec) Flush() bool {
 	}
 	sort.Strings(names)
 	for _, c := range names {
-		if r.p.Evaluations >= 200 && float64(r.p.Classes[c]) < r.required[c]*float64(r.p.Evaluations) {
-			r.p.Starved = append(r.p.Starved, fmt.Sprintf("%s=%d/%d<%.3f", c, r.p.Classes[c], r.p.Evaluations, r.required[c]))
+		if r.caseN >= 200 && float64(r.p.Classes[c]) < r.required[c]*float64(r.caseN) {
+			r.p.Starved = append(r.p.Starved, fmt.Sprintf("%s=%d/%d<%.3f", c, r.p.Classes[c], r.caseN, r.required[c]))
 			ok = false
 		}
 	}
